@@ -46,3 +46,29 @@ package lnd
 //@ func (*TxWatcher).AddWaitForCsvTx$1
 //@ property C20
 //@ requires t != nil
+
+// ---------------------------------------------------------------------------
+// C08 (LND wallet adapter): what CreateOpeningTransaction returns describes the
+// transaction it published: the raw hex is the published bytes, the txid is
+// the hash of exactly that transaction, the output index comes from a
+// successful GetVoutAndVerify of exactly that transaction.
+// ---------------------------------------------------------------------------
+//@ ghost publishedBytes []byte
+
+//@ interface walletrpc.WalletKitClient.PublishTransaction
+//@ sets ghost.publishedBytes = in.TxHex
+//@ assigns nothing
+
+//@ extern wire (*MsgTx).TxHash
+//@ pure
+//@ extern chainhash (Hash).String
+//@ pure
+
+//@ func (*Client).CreateOpeningTransaction
+//@ property C08
+//@ requires l != nil && swapParams != nil
+//@ ensures @C08 announced-hex-is-published: result5 == nil ==> ghost.publishedBytes == hex.DecodeString(result0)
+//@ ensures @C08 vout-verified: result5 == nil ==> ghost.voutOK
+//@ ensures @C08 vout-of-announced-tx: result5 == nil ==> ghost.voutCheckedHex == result0
+//@ ensures @C08 vout-is-verified-index: result5 == nil ==> ghost.voutChecked == result4
+//@ ensures @C08 txid-of-published-tx: result5 == nil ==> (ghost.decodedBytes == hex.DecodeString(result0) && result2 == ghost.decodedTx.TxHash().String())
